@@ -152,13 +152,15 @@ func (s *SchemaValidator) Validate(data interface{}) *Result {
 
 	if data == nil {
 		// early exit with minimal validation
-		result.Merge(s.validators[0].Validate(data)) // type validator
-		result.Merge(s.validators[6].Validate(data)) // common validator
-
+		typeValidator, commonValidator := s.validators[0], s.validators[6]
 		if s.Options.recycleValidators {
+			// released first: both redeem themselves when they run
 			s.validators[0] = nil
 			s.validators[6] = nil
 		}
+
+		result.Merge(typeValidator.Validate(data))   // type validator
+		result.Merge(commonValidator.Validate(data)) // common validator
 
 		return result
 	}
@@ -223,10 +225,12 @@ func (s *SchemaValidator) Validate(data interface{}) *Result {
 			continue
 		}
 
-		result.Merge(v.Validate(d))
 		if s.Options.recycleValidators {
+			// the validator redeems itself when it runs: release the slot first, so that it is not
+			// redeemed a second time by redeemChildren if it panics
 			s.validators[idx] = nil // prevents further (unsafe) usage
 		}
+		result.Merge(v.Validate(d))
 		result.Inc()
 	}
 	result.Inc()
